@@ -179,6 +179,42 @@ pub fn wipe(path: &Path) {
         }
     }
     rec(path);
+    // paths beyond PATH_MAX defeat the above: descend with chdir instead
+    if fs::symlink_metadata(path).is_ok() {
+        if let (Some(parent), Some(name)) = (path.parent(), path.file_name()) {
+            let back = std::env::current_dir().ok();
+            wipe_deep(parent, name);
+            if let Some(b) = back {
+                let _ = std::env::set_current_dir(b);
+            }
+        }
+    }
+}
+
+/// Remove `parent/name` recursively without ever naming a path longer than one component:
+/// descends with chdir. Leaves the process in `parent`.
+pub fn wipe_deep(parent: &Path, name: &OsStr) {
+    fn rec(name: &OsStr) {
+        let Ok(md) = fs::symlink_metadata(name) else { return };
+        if md.is_dir() {
+            let _ = fs::set_permissions(name, fs::Permissions::from_mode(0o700));
+            if std::env::set_current_dir(name).is_ok() {
+                if let Ok(rd) = fs::read_dir(".") {
+                    let names: Vec<OsString> = rd.flatten().map(|e| e.file_name()).collect();
+                    for n in names {
+                        rec(&n);
+                    }
+                }
+                let _ = std::env::set_current_dir("..");
+            }
+            let _ = fs::remove_dir(name);
+        } else {
+            let _ = fs::remove_file(name);
+        }
+    }
+    if std::env::set_current_dir(parent).is_ok() {
+        rec(name);
+    }
 }
 
 /// Remove everything inside `dir` but keep `dir`.
